@@ -386,7 +386,8 @@ class C18AppendOnly(Monitor):
             new = cur["sequence"][i]
             if (new["id"], new["route"]) != (old["id"], old["route"]):
                 self.fail(env, "record-identity", "C18 record #%d changed identity %s -> %s" % (i, old["id"], new["id"]), call=name)
-            if new["ctxs"]["in"] != old["ctxs"]["in"] or new["prev"] != old["prev"]:
+            started = old.get("status") not in (None, S.UNSET)
+            if started and (new["ctxs"]["in"] != old["ctxs"]["in"] or new["prev"] != old["prev"]):
                 self.fail(
                     env, "started-record-changed",
                     "C18 record #%d (%s, %s) had input contexts %s / predecessors %s when it started, now %s / %s (after %s)"
@@ -500,3 +501,187 @@ class C13Retry(Monitor):
     def after_offers(self, env, tasks):
         # a retried attempt must lead to a re-offer, never to a successor
         pass
+
+
+class C07Join(Monitor):
+    """A join runs only when the reference barrier is satisfied, once per satisfaction; a
+    partially satisfied join that can no longer be satisfied fails the workflow."""
+
+    prop = "C07"
+
+    def on_started(self, env, act):
+        if act.task in env.wf.tasks and env.wf.is_join(act.task):
+            count(env, "c07_join_started")
+            if act.due is None:
+                arrived = sorted(env.orc.arrived[act.task])
+                self.fail(
+                    env, "join-unjustified",
+                    "C07 join %s started with %d of the required %s distinct inbound tasks arrived (%s); it had already run %d time(s) for this satisfaction"
+                    % (act.task, len(arrived), env.wf.need(act.task), arrived, env.orc.fired[act.task]),
+                    join=act.task, already_fired=env.orc.fired[act.task] > 0,
+                )
+
+    def after_offers(self, env, tasks):
+        if env.status() in (S.RUNNING, S.RESUMING) and not env.orc_stopped:
+            for d in env.due:
+                if not d.matched and env.wf.is_join(d.task):
+                    self.fail(env, "join-not-offered", "C07 the barrier of %s is satisfied (%s) but the join is not offered" % (d.task, d.cause), join=d.task)
+
+    def on_end(self, env, complete):
+        if not complete or env.cancel_req:
+            return
+        unreach = env.orc.unreachable_joins()
+        msgs = [e["message"] for e in env.c.errors]
+        if unreach and not env.orc.failed:
+            count(env, "c07_unreachable")
+            if env.status() != S.FAILED or not any("UnreachableJoinError" in m for m in msgs):
+                self.fail(env, "unreachable-join-not-failed", "C07 join %s is partially satisfied and can no longer be satisfied, yet the workflow ended %s with errors %s" % (unreach, env.status(), msgs), join=unreach[0], status=env.status())
+
+
+class C12Items(Monitor):
+    """With-items: every item once, in order, within the concurrency window; result in item
+    order; succeeds iff all items succeed; nothing offered after pause/cancel/completion."""
+
+    prop = "C12"
+
+    def on_start(self, env):
+        env.items = {}  # (task, route) -> state of the current task execution
+
+    def window(self, env, t):
+        k = t.get("concurrency")
+        if k is None:
+            return None
+        return k if k > 0 else 1
+
+    def on_offer(self, env, tasks):
+        st = env.status()
+        for t in tasks:
+            if "items_count" not in t:
+                continue
+            key = (t["id"], t["route"])
+            rec = env.c.get_task_state_entry(t["id"], t["route"])
+            stt = env.items.get(key)
+            if stt is None or stt["done"]:
+                stt = {"offered": [], "inflight": set(), "n": t["items_count"], "done": False, "ok": {}, "failed": False}
+                env.items[key] = stt
+            ids = [a["item_id"] for a in t["actions"]]
+            count(env, "c12_item_offers", len(ids))
+            if ids and (st in (S.PAUSING, S.PAUSED) or env.pause_req):
+                self.fail(env, "items-after-pause", "C12 items %s of %s offered although pause was requested (status %s)" % (ids, t["id"], st), task=t["id"])
+            if ids and env.cancel_req:
+                self.fail(env, "items-after-cancel", "C12 items %s of %s offered after cancellation was requested" % (ids, t["id"]), task=t["id"])
+            for i in ids:
+                if i in stt["offered"]:
+                    self.fail(env, "item-twice", "C12 item %d of %s offered twice in one task execution" % (i, t["id"]), task=t["id"])
+                want = len(stt["offered"])
+                if i != want:
+                    self.fail(env, "item-order", "C12 item %d of %s offered while item %d has not been offered" % (i, t["id"], want), task=t["id"])
+                stt["offered"].append(i)
+                stt["inflight"].add(i)
+            w = self.window(env, t)
+            if w is not None:
+                count(env, "c12_window_checked")
+                if len(stt["inflight"]) > w:
+                    self.fail(env, "window-exceeded", "C12 %d items of %s offered-or-running %s with concurrency %s" % (len(stt["inflight"]), t["id"], sorted(stt["inflight"]), t.get("concurrency")), task=t["id"], k=t.get("concurrency"))
+
+    def on_report(self, env, act, status, result):
+        if act.item is None:
+            if act.task in env.wf.tasks and env.wf.has_items(act.task):
+                rec = env.c.get_task_state_entry(act.task, act.route) or {}
+                count(env, "c12_empty")
+                if rec.get("status") != S.SUCCEEDED:
+                    self.fail(env, "empty-not-succeeded", "C12 empty with-items task %s is %s" % (act.task, rec.get("status")), task=act.task)
+            return
+        key = (act.task, act.route)
+        stt = env.items[key]
+        stt["inflight"].discard(act.item)
+        stt["ok"][act.item] = status == S.SUCCEEDED
+        if status != S.SUCCEEDED:
+            stt["failed"] = True
+        rec = env.c.get_task_state_entry(act.task, act.route) or {}
+        ts = rec.get("status")
+        if ts in COMPLETED:
+            count(env, "c12_task_completed")
+            if stt["inflight"]:
+                self.fail(env, "completed-with-inflight", "C12 %s is %s while items %s are still in flight" % (act.task, ts, sorted(stt["inflight"])), task=act.task)
+            all_ok = len(stt["ok"]) == stt["n"] and all(stt["ok"].values())
+            if (ts == S.SUCCEEDED) != all_ok and ts != S.CANCELED:
+                self.fail(env, "task-status", "C12 %s is %s with item outcomes %s of %d items" % (act.task, ts, stt["ok"], stt["n"]), task=act.task)
+            stt["done"] = True
+
+    def on_end(self, env, complete):
+        if not complete:
+            return
+        for (task, route), stt in env.items.items():
+            rec = env.c.get_task_state_entry(task, route) or {}
+            if rec.get("status") == S.SUCCEEDED:
+                if stt["offered"] != list(range(stt["n"])):
+                    self.fail(env, "not-all-items", "C12 %s succeeded but only items %s of %d were offered" % (task, stt["offered"], stt["n"]), task=task)
+                out = env.c.get_workflow_output() or {}
+                if "out" in env.wf.output and env.status() == S.SUCCEEDED:
+                    count(env, "c12_result_checked")
+                    want = [env.policy.item_value(i) for i in range(stt["n"])]
+                    if out.get("out") != want:
+                        self.fail(env, "result-order", "C12 the task result is %r, the item results in item order are %r" % (out.get("out"), want), task=task)
+
+
+class C06Context(OracleTracker):
+    """The context a task is offered with equals the reference causal context."""
+
+    prop = "C06"
+
+    def on_start(self, env):
+        OracleTracker.on_start(self, env)
+        env.match_ctx = True
+
+    def on_started(self, env, act):
+        before = len(env.unjustified)
+        OracleTracker.on_started(self, env, act)
+        if act.task not in env.wf.tasks:
+            return
+        if act.due is not None:
+            count(env, "c06_ctx_matched")
+            return
+        if len(env.unjustified) > before:
+            env.unjustified.pop()
+        got = env.visible_ctx(act)
+        cands = [d for d in env.due if d.task == act.task and not d.matched]
+        if not cands:
+            return  # not this property's business (C01/C07)
+        d = cands[0]
+        d.matched = True
+        act.due = d
+        want = d.visible()
+        diff = sorted(k for k in set(got) | set(want) if got.get(k) != want.get(k))
+        var = diff[0]
+        superseded = False
+        b = d.ctx.get(var)
+        if b is not None and var in got:
+            olds = [pid for pid, tok in env.orc.pubs.items() if tok == got[var]]
+            superseded = bool(olds) and olds[0] in b.seen
+        self.fail(
+            env, "context-differs",
+            "C06 %s is rendered with %s=%r, its causal ancestors published %r (differing: %s)%s"
+            % (act.label(), var, got.get(var), want.get(var), diff, "; the value shown was superseded by a publish whose publisher had received it" if superseded else ""),
+            task=act.task, var=var, shows_superseded=superseded, join=env.wf.is_join(act.task),
+        )
+
+    def on_end(self, env, complete):
+        if not complete or env.status() != S.SUCCEEDED or not env.wf.output:
+            return
+        out = env.c.get_workflow_output() or {}
+        from vt.oracle import merge_binding  # noqa: F401
+
+        for v in env.wf.output:
+            bs = {}
+            for tc in env.orc.terminal_ctxs:
+                if v in tc:
+                    bs[tc[v].pid] = tc[v]
+            live = [b for b in bs.values() if not any(b.pid in o.seen for o in bs.values() if o is not b)]
+            if len(live) == 1:
+                count(env, "c06_output_checked")
+                if out.get(v) != live[0].tok:
+                    self.fail(env, "output-differs", "C06 output %s is %r, the context reaching the terminal tasks carries %r" % (v, out.get(v), live[0].tok), var=v)
+            elif not live:
+                if out.get(v) is not None:
+                    self.fail(env, "output-leak", "C06 output %s is %r although no terminal task received it" % (v, out.get(v)), var=v)
